@@ -6,7 +6,8 @@ let rec nat_of_int i : Datatypes.nat = if i = 0 then Datatypes.O else Datatypes.
 
 let beh c : Fleet.behaviour = match c with
   | 'R' -> Fleet.Refused | 'A' -> Fleet.AccClosed | 'I' -> Fleet.ClosedIdle | 'S' -> Fleet.Silent
-  | 'M' -> Fleet.Malformed | 'E' -> Fleet.AppError | _ -> Fleet.Success
+  (* 'J' (harness-only): a success frame whose JSON body is incomplete: a reply that yields an error *)
+  | 'M' -> Fleet.Malformed | 'E' | 'J' -> Fleet.AppError | _ -> Fleet.Success
 
 let result_of (s : string) : Fleet.result = match s with
   | "value" -> Fleet.RValue
@@ -15,7 +16,9 @@ let result_of (s : string) : Fleet.result = match s with
   | "brokenpipe" -> Fleet.RErr Fleet.KBrokenPipe | "wouldblock" -> Fleet.RErr Fleet.KWouldBlock
   | "interrupted" -> Fleet.RErr Fleet.KInterrupted | "invalidspec" -> Fleet.RErr Fleet.KInvalidSpec
   | "servererror" -> Fleet.RErr Fleet.KServerError
-  | other -> failwith ("unmodelled result " ^ other)
+  (* an error kind the model has no name for (e.g. io-Other): the fleets retry only the kinds
+     listed above, so it is judged as a non-retryable error *)
+  | _ -> Fleet.RErr Fleet.KInvalidSpec
 
 let step _ cs os =
   let f = fields cs and o = fields os in
@@ -28,12 +31,17 @@ let step _ cs os =
     let want = n_of_int (int_of_string (get f "want")) in
     let exp = Fleet.addressed nt want in
     let names = Stdlib.List.concat (Stdlib.List.mapi (fun i b -> if b then [Printf.sprintf "n%d" i] else []) exp) in
-    let exp_results = if names = [] then "-" else String.concat "," names in
+    (* slow=<i>: node i never answers: an addressed node still has exactly one (error) entry *)
+    let slow = (match get_opt f "slow" with Some s -> Some (Printf.sprintf "n%s" s) | None -> None) in
+    let exp_results = if names = [] then "-" else String.concat "," (Stdlib.List.map (fun n -> if Some n = slow then n ^ "!" else n) names) in
     let exp_hit = if names = [] then "-" else String.concat "," (Stdlib.List.map (fun n -> n ^ "x1") names) in
     if get o "results" <> exp_results || get o "hit" <> exp_hit then
       ["BAD\tside=impl\tclause=broadcast targets: expected results=" ^ exp_results ^ " hit=" ^ exp_hit]
     else []
   | None ->
+    let contains s sub = (let n = String.length s and m = String.length sub in let rec f i = i + m <= n && (String.sub s i m = sub || f (i + 1)) in f 0) in
+    if contains (get o "res") "value+error" || contains (get o "follow") "value+error" then
+      ["BAD\tside=impl\tclause=a result carries a reply and a stale transport error at once (reports that reply OR the last transport error)"] else
     let max = nat_of_int (int_of_string (get f "max")) in
     let script = let s = get f "script" in if s = "-" then [] else Stdlib.List.init (String.length s) (fun i -> beh s.[i]) in
     let nfollow = int_of_string (get f "nfollow") in
